@@ -7,6 +7,9 @@ PID = 'C16'
 
 def run(tier, seed):
     ctx = Context(PID, tier, seed)
+    import contracts.csvw
+    from pyvc.contracts import REGISTRY
+    ctx.run_deductive(['contracts.csvw'], [i for i, c in REGISTRY.items() if not c.assumed and PID in c.props])
     from bounded import csvw_bounded as cb
     t = time.time()
     n, bad = cb.exhaustive_formats(2 if tier == 'quick' else 3)
